@@ -153,6 +153,8 @@ pub fn builder_plans(ctx: &mut Ctx, opts: &RunOpts) {
         vec![BEntry::AddRaw(k("ed25519"), vec![0xc0])],
         vec![BEntry::AddRaw(k("secp256k1"), vec![0xc0])],
         vec![BEntry::Add(k("secp256k1"), Val::B(vec![3; 33]))],
+        vec![BEntry::Add(k("secp256k1"), Val::B(vec![2, 9, 9]))],
+        vec![BEntry::Add(k("secp256k1"), Val::B(vec![3; 34]))],
         vec![BEntry::Add(k("secp256k1"), Val::B(crate::util::unhex("03ca634cae0d49acb401d8a4c6b6fe8c55b70d115bf400769cc1400f3258cd3138").unwrap()))],
         vec![BEntry::Add(k("secp256k1"), Val::B({
             let c = crate::util::unhex("03ca634cae0d49acb401d8a4c6b6fe8c55b70d115bf400769cc1400f3258cd3138").unwrap();
@@ -269,7 +271,7 @@ pub fn byte_value_histories(ctx: &mut Ctx, opts: &RunOpts) {
             let steps = vec![
                 Step { op: Op::Insert(vec![b], Val::B(vec![b; len])), signer: Signer::Own },
                 Step { op: Op::InsertRaw(vec![b, b], rlp::enc_str(&[b])), signer: Signer::Own },
-                Step { op: Op::RemoveInsert(vec![vec![b]], vec![(vec![b, 1], vec![b; 2])]), signer: Signer::Own },
+                Step { op: Op::RemoveInsert(vec![vec![b]], vec![(vec![b, 1], vec![b; 2]), (vec![b, 2], vec![b])]), signer: Signer::Own },
                 Step { op: Op::RemoveKey(vec![b, b]), signer: Signer::Own },
             ];
             let h = mk_history(scheme, OWN, OTHER, &Init::Build(vec![BEntry::Add(vec![b], Val::U8(b))]), steps);
@@ -647,9 +649,11 @@ fn same_key_different_content(ctx: &mut Ctx) {
         go::<K256K>(ctx, Scheme::Secp, label);
         #[cfg(feature = "libsecp")]
         go::<LibsecpK>(ctx, Scheme::Secp, label);
-        go::<EdK>(ctx, Scheme::Ed, label);
-        go::<CombK>(ctx, Scheme::Secp, label);
-        go::<CombK>(ctx, Scheme::Ed, label);
+        if cfg!(feature = "ed") {
+            go::<EdK>(ctx, Scheme::Ed, label);
+            go::<CombK>(ctx, Scheme::Secp, label);
+            go::<CombK>(ctx, Scheme::Ed, label);
+        }
         go::<ToyK>(ctx, Scheme::Toy, label);
     }
 }
@@ -795,8 +799,10 @@ fn builder_reuse(ctx: &mut Ctx) {
     go::<K256K>(ctx, Scheme::Secp);
     #[cfg(feature = "libsecp")]
     go::<LibsecpK>(ctx, Scheme::Secp);
-    go::<EdK>(ctx, Scheme::Ed);
-    go::<CombK>(ctx, Scheme::Secp);
-    go::<CombK>(ctx, Scheme::Ed);
+    if cfg!(feature = "ed") {
+        go::<EdK>(ctx, Scheme::Ed);
+        go::<CombK>(ctx, Scheme::Secp);
+        go::<CombK>(ctx, Scheme::Ed);
+    }
     go::<ToyK>(ctx, Scheme::Toy);
 }
